@@ -19,7 +19,7 @@
    words, Tables/StateTreeConsts.v regenerated from tree.rs); `hits a c`: access a starts at cell c's first word, moves
    exactly its size and is of a kind the cell admits; `access_ok entry sk a := exists c in cells_at entry sk, hits a c`. *)
 From Coq Require Import List NArith Bool.
-From Mimium Require Import StateTree.Model Mirst.Model Mirst.Spec Mirst.Cells Mirst.Sound Mirst.Examples.
+From Mimium Require Import StateTree.Model Mirst.Model Mirst.Spec Mirst.Cells Mirst.Sound Mirst.Sep Mirst.SepSound Mirst.Examples.
 Import ListNotations.
 Local Open Scope N_scope.
 
@@ -65,6 +65,48 @@ Theorem C05_mir_sound_dump : forall rp, check_rprog rp = true ->
       end.
 Proof. intros rp H. exact (check_sound (erase rp) H). Qed.
 
+(* EVERY CALL SITE OWNS ITS CELLS.  `check_prog_strict` is `check_prog` without its one concession (a call may run on
+   cells its caller publishes without owning a child: what a recursive call of a stateful function does).  If it accepts,
+   then during one call — on every path, through every callee, at every depth — no two accesses touch a common word, except
+   the one GetState and the one SetState of a Feed cell:
+     disjoint a b   := a ends before b starts or b ends before a starts;
+     feed_pair a b  := same first word, same size, one is the GetState and the other the SetState;
+     separated tr   := every two accesses of tr are disjoint or a feed_pair. *)
+Theorem C05_mir_strict_separated : forall p, check_prog_strict p = true ->
+    forall idx f, nth_error p idx = Some f ->
+    forall fuel entry oracle,
+      match run_fn fuel p f entry oracle with
+      | Fault => False
+      | Stop tr | Fin _ tr _ _ => separated tr
+      end.
+Proof. exact strict_separated. Qed.
+
+(* ... and everything C05_mir_sound states holds for it as well *)
+Theorem C05_mir_strict_sound : forall p, check_prog_strict p = true ->
+    forall idx f fuel entry oracle, nth_error p idx = Some f ->
+      match run_fn fuel p f entry oracle with
+      | Fault => False
+      | Stop tr => Forall (access_ok entry (f_skel f)) tr
+      | Fin cur tr _ ret => ret = true /\ cur = entry /\ Forall (access_ok entry (f_skel f)) tr
+      end.
+Proof. exact strict_fn_lenient. Qed.
+
+(* the concession is needed and is exactly about sharing: the real compiler's MIR of
+     fn cnt(x){ self + x }  fn r(n){ if (n > 0.0) { r(n - 1.0) + cnt(1.0) } else { 0.0 } }  fn dsp(){ r(2.0) }
+   satisfies C05 (accepted) but every recursion depth runs cnt on the same Feed cell (not strict; the run shows it) *)
+Theorem C05_mir_recursion_shares_cells :
+  check_rprog prog_rec = true /\ check_prog_strict (erase prog_rec) = false /\
+  run_fn 9 (erase prog_rec) (dsp_of prog_rec) 0 [0%nat; 0%nat; 1%nat] =
+  Fin 0 [ {| a_kind := KGet; a_pos := 0; a_size := 1 |}; {| a_kind := KSet; a_pos := 0; a_size := 1 |};
+          {| a_kind := KGet; a_pos := 0; a_size := 1 |}; {| a_kind := KSet; a_pos := 0; a_size := 1 |} ] [] true.
+Proof. exact (conj prog_rec_accepted (conj prog_rec_not_strict prog_rec_shares)). Qed.
+
+Example C05_mir_strict_accepts_if : check_prog_strict (erase prog_if) = true.
+Proof. exact prog_if_strict. Qed.
+
+Example C05_mir_strict_accepts_match : check_prog_strict (erase prog_match) = true.
+Proof. exact prog_match_strict. Qed.
+
 (* NON-VACUITY: dumps of the real compiler for a program with an `if` whose arms hold nested stateful calls, mem and
    delay, and for a `match` with a stateful arm, are accepted; the two paths of the `if` really touch different cells *)
 Example C05_mir_accepts_if : check_rprog prog_if = true.
@@ -101,3 +143,15 @@ Theorem C05_mir_old_match_refuted :
   run_fn 5 (erase prog_match_old) (fe_of prog_match_old) 0 [1%nat] = Fault /\
   exists tr, run_fn 5 (erase prog_match_old) (fe_of prog_match_old) 0 [0%nat] = Fin 0 tr [] true.
 Proof. exact (conj prog_match_old_rejected (conj prog_match_old_faults prog_match_old_first_arm_fine)). Qed.
+
+(* A GENUINE DEFECT OF THE CURRENT COMPILER found by the checker (finding F64, reproduced on the real VM by the check):
+     fn f(x){ self }   fn dsp(){ let t = f((1.0, 2.0))  1.0 }
+   the instance of f at (number, number) publishes a ONE-word Feed cell but reads and writes TWO words: the checker rejects
+   the real MIR, and the interpreter shows the access leaving dsp's one-word storage (vm.rs: slice::from_raw_parts_mut past
+   the end of the Vec).  A sampled run sees neither a panic nor a cursor that is not home. *)
+Theorem C05_mir_generic_self_refuted :
+  check_rprog prog_generic_self = false /\
+  size (f_skel (dsp2_of prog_generic_self)) = 1 /\
+  run_fn 5 (erase prog_generic_self) (dsp2_of prog_generic_self) 0 [] =
+  Fin 0 [ {| a_kind := KGet; a_pos := 0; a_size := 2 |}; {| a_kind := KSet; a_pos := 0; a_size := 2 |} ] [] true.
+Proof. exact (conj prog_generic_self_rejected prog_generic_self_out_of_bounds). Qed.
